@@ -15,7 +15,7 @@ func init() { registry["C03"] = propC03 }
 
 func propC03() *Property {
 	return &Property{
-		ID: "C03",
+		ID:          "C03",
 		Explanation: "Static path, dominance and table rules on jtp.Get and its helpers. Decided: (R1) every return of jtp.Get is an error return, a cache hit, the forwarded result of the recursive redirect call, or a success return that is dominated — in this order — by the https scheme test, the dial, a checked parseStatusLine, a status whitelist within {200,201,202,203} on every path, a checked validateHeaders on the frame's own tolerated list, and a checked JSON decode into the very map that is returned, with the frame's own URL as source; (R2) redirects are bounded: the only recursion passes maxRedirects minus a positive constant under maxRedirects != 0, the budget is unsigned and constant at every external call site, and there is one dial and one request per frame; (R3) the redirect target is the Location header resolved against the frame's own URL, a missing Location is an error, and the redirect branch is entered only for 3xx; (R4) validateHeaders returns nil only after at least one Content-Type header matched the tolerated list and no Content-Type header failed to match; MediaType.Matches is an equality test against the list; (R5) the status line recogniser is anchored and captures exactly three digits; (R6) the cache is keyed by everything that shapes the request and never stores an outcome that depends on the remaining redirect budget. Not decided: that the header regexps recognise exactly the HTTP grammar, JSON decoding itself, LRU eviction.",
 		Assumptions: []string{
 			"regexp, encoding/json, net/url and lru behave as documented",
@@ -358,7 +358,7 @@ func c03Success(c *Ctx, g *getShape, ret *ssa.Return) {
 		switch {
 		case e == nil || !knownNil(e, b):
 			whyVH = "the error of validateHeaders is not checked before success"
-		case len(vh.Call.Args) != 2 || vh.Call.Args[1] != ssa.Value(g.tolerated):
+		case len(vh.Call.Args) != 2 || unwrapLoad(vh.Call.Args[1]) != ssa.Value(g.tolerated):
 			whyVH = "validateHeaders is not given this request's own tolerated list"
 		case vh.Call.Args[0] != reader:
 			whyVH = "validateHeaders does not read from the same reader as the status line"
@@ -382,7 +382,7 @@ func c03Success(c *Ctx, g *getShape, ret *ssa.Return) {
 			return
 		}
 		mi, ok := call.Call.Args[1].(*ssa.MakeInterface)
-		if !ok || docAlloc == nil || mi.X != ssa.Value(docAlloc) {
+		if !ok || docAlloc == nil || unwrapLoad(mi.X) != ssa.Value(docAlloc) {
 			whyDec = "the decoded value is not the map that is returned"
 			return
 		}
@@ -416,7 +416,7 @@ func c03Success(c *Ctx, g *getShape, ret *ssa.Return) {
 	})
 	c.check(okDec, fname+"/success:decode", pos, fname, "dominated by a checked json Decode of the validated stream into the returned map", whyDec)
 	// source is the frame's own URL
-	c.check(ret.Results[1] == ssa.Value(g.link), fname+"/success:source", pos, fname, "the reported source is the frame's own URL", "the source returned with the document is not the URL this frame requested")
+	c.check(unwrapLoad(ret.Results[1]) == ssa.Value(g.link), fname+"/success:source", pos, fname, "the reported source is the frame's own URL", "the source returned with the document is not the URL this frame requested")
 }
 
 func c03R2(c *Ctx) {
@@ -431,7 +431,7 @@ func c03R2(c *Ctx) {
 		pos := P.InstrPos(rc)
 		arg := rc.Call.Args[3]
 		dec := false
-		if bo, ok := arg.(*ssa.BinOp); ok && bo.Op == token.SUB && bo.X == ssa.Value(g.budget) {
+		if bo, ok := arg.(*ssa.BinOp); ok && bo.Op == token.SUB && unwrapLoad(bo.X) == ssa.Value(g.budget) {
 			if k, ok := constInt(bo.Y); ok && k >= 1 {
 				dec = true
 			}
@@ -443,7 +443,7 @@ func c03R2(c *Ctx) {
 			if !ok {
 				continue
 			}
-			if k, isC := constInt(cmp.Y); isC && cmp.X == ssa.Value(g.budget) {
+			if k, isC := constInt(cmp.Y); isC && unwrapLoad(cmp.X) == ssa.Value(g.budget) {
 				if (cmp.Op == token.NEQ && k == 0) || (cmp.Op == token.GTR && k >= 0) || (cmp.Op == token.GEQ && k >= 1) {
 					nonZero = true
 				}
@@ -451,7 +451,7 @@ func c03R2(c *Ctx) {
 		}
 		c.check(nonZero, fname+"/budget-guard", pos, fname, "dominated by maxRedirects != 0", "the recursive call is not guarded by a test that the budget is not exhausted (unsigned underflow)")
 		// other arguments forwarded unchanged
-		c.check(rc.Call.Args[1] == ssa.Value(g.accept) && rc.Call.Args[2] == ssa.Value(g.tolerated), fname+"/forwarded-args", pos, fname,
+		c.check(unwrapLoad(rc.Call.Args[1]) == ssa.Value(g.accept) && unwrapLoad(rc.Call.Args[2]) == ssa.Value(g.tolerated), fname+"/forwarded-args", pos, fname,
 			"accept and tolerated are forwarded unchanged to the next hop", "the next hop is requested with a different Accept header or tolerated list")
 	}
 	// one dial, one write, neither in a loop
@@ -503,7 +503,7 @@ func c03R3(c *Ctx) {
 			if fl, ok := ex.Tuple.(*ssa.Call); ok && fl.Call.StaticCallee() == findLoc {
 				e, _ := errorResult(fl)
 				switch {
-				case len(fl.Call.Args) != 2 || fl.Call.Args[1] != ssa.Value(g.link):
+				case len(fl.Call.Args) != 2 || unwrapLoad(fl.Call.Args[1]) != ssa.Value(g.link):
 					why = "Location is not resolved against the URL that issued the redirect"
 				case e == nil || !knownNil(e, rc.Block()):
 					why = "the error of findLocation (missing or malformed Location) is not checked"
@@ -540,7 +540,7 @@ func c03R3(c *Ctx) {
 					e, _ := errorResult(pl)
 					isLoc := resultValue(pl, 1)
 					switch {
-					case pl.Call.Args[1] != ssa.Value(base):
+					case unwrapLoad(pl.Call.Args[1]) != ssa.Value(base):
 						why = "parseLocation is not given the issuing URL as base"
 					case e == nil || !knownNil(e, b):
 						why = "parse error of the Location value is not checked"
@@ -569,7 +569,7 @@ func c03R3(c *Ctx) {
 		why := "the returned URL is not base.ResolveReference(...)"
 		if call, ok := ret.Results[0].(*ssa.Call); ok && isLibCall(&call.Call, "net/url", "URL", "ResolveReference") {
 			switch {
-			case call.Call.Args[0] != ssa.Value(pbase):
+			case unwrapLoad(call.Call.Args[0]) != ssa.Value(pbase):
 				why = "the Location is not resolved relative to the issuing URL"
 			default:
 				if ex, ok := call.Call.Args[1].(*ssa.Extract); ok {
@@ -626,7 +626,7 @@ func c03R4(c *Ctx) {
 			if m != call {
 				continue
 			}
-			if len(m.Call.Args) != 2 || m.Call.Args[1] != ssa.Value(tolerated) {
+			if len(m.Call.Args) != 2 || unwrapLoad(m.Call.Args[1]) != ssa.Value(tolerated) {
 				return false
 			}
 			ex, ok := m.Call.Args[0].(*ssa.Extract)
@@ -665,7 +665,7 @@ func c03R4(c *Ctx) {
 			good := true
 			sawTrue := false
 			for k, ed := range ph.Edges {
-				if ed == ssa.Value(ph) {
+				if unwrapLoad(ed) == ssa.Value(ph) {
 					continue
 				}
 				cst, ok := ed.(*ssa.Const)
@@ -1049,7 +1049,7 @@ func c03R5(c *Ctx) {
 							}
 							if k, isC := constInt(cmp.Y); isC && k == int64(ncap+1) {
 								if lc, ok := cmp.X.(*ssa.Call); ok {
-									if bi, ok := lc.Call.Value.(*ssa.Builtin); ok && bi.Name() == "len" && lc.Call.Args[0] == ssa.Value(call) {
+									if bi, ok := lc.Call.Value.(*ssa.Builtin); ok && bi.Name() == "len" && unwrapLoad(lc.Call.Args[0]) == ssa.Value(call) {
 										lenOK = true
 									}
 								}
@@ -1058,7 +1058,7 @@ func c03R5(c *Ctx) {
 						switch {
 						case !fromGlobal:
 							why = "matched with a different pattern"
-						case call.Call.Args[1] != ssa.Value(ps.Params[0]):
+						case unwrapLoad(call.Call.Args[1]) != ssa.Value(ps.Params[0]):
 							why = "the pattern is not applied to the status line passed in"
 						case !lenOK:
 							why = "the match is indexed without the len(matches) == captures+1 guard"
